@@ -20,7 +20,9 @@ Df(t)         == [type |-> t, args |-> <<>>, res |-> "D"]      \* default resolv
 RsA(t, args)  == [type |-> t, args |-> args, res |-> "R"]
 
 HArgs == << Ag("i", Nm("In")) >>
-InFields == << Ag("r", Nn(Nm("Int"))), Ag("l", Li(Nm("Int"))), Ag("n", Nm("In")), Ag("e", Nm("E")), Ag("ln", Li(Nn(Nm("Int")))), Ag("q", Nm("Int")) >>
+InFields == << Ag("r", Nn(Nm("Int"))), Ag("l", Li(Nm("Int"))), Ag("n", Nm("In")), Ag("e", Nm("E")), Ag("ln", Li(Nn(Nm("Int")))),
+              \* an input field guarded by a directive whose on_post_input_coercion hook raises (a plain exception) for the value 13
+              [name |-> "q", type |-> Nm("Int"), hasDefault |-> FALSE, default |-> [t |-> "null", v |-> 0], dirs |-> <<[name |-> "boomi", args |-> <<>>]>>] >>
 FArgs == << Ag("a", Nm("Int")), AgD("b", Nm("String"), [t |-> "str", v |-> "d"]) >>
 GArgs == << Ag("r", Nn(Nm("Int"))) >>
 ZArgs == << Ag("a", Nm("Sz")) >>
